@@ -121,16 +121,30 @@ static void block_and_switch() {
     transfer(next);
 }
 
-static void *task_main(void *arg) {
+// A task stays a scheduled task until its thread has run its C++ thread_local destructors (the library's per-thread FFT state is
+// torn down there: table deletion, plan destruction under the planner mutex).  Those destructors run inside the thread after
+// task_main has returned, and POSIX runs pthread-key destructors after them: the key destructor below is therefore the last
+// thing the task does - it hands the baton to the hub, which joins the thread.  (Before, the task left the scheduler when its
+// function returned; a destructor that locked a mutex held by a parked task then blocked for real and the run hung.  Seen with
+// a seeded change that computes shared tables under a lock, once the library's sin/cos calls had become scheduling points.)
+static pthread_key_t g_exit_key;
+static pthread_once_t g_exit_once = PTHREAD_ONCE_INIT;
+static void task_exit_hook(void *arg) {
     Task *t = (Task *) arg;
-    while (sem_wait(&t->sem) != 0) {}
-    tl_task = t;
-    t->fn();
     t->st = T_FINISHING;
     g.finishing = t->id;
     tl_task = nullptr;
     sem_post(&g.hub);
-    return nullptr;   // thread_local destructors run now, while the hub waits in pthread_join
+}
+static void make_exit_key() { pthread_key_create(&g_exit_key, task_exit_hook); }
+static void *task_main(void *arg) {
+    Task *t = (Task *) arg;
+    while (sem_wait(&t->sem) != 0) {}
+    tl_task = t;
+    pthread_once(&g_exit_once, make_exit_key);
+    pthread_setspecific(g_exit_key, t);
+    t->fn();
+    return nullptr;   // thread_local destructors run now, still under the scheduler; task_exit_hook runs after them
 }
 
 static int add_task(std::function<void()> fn) {
